@@ -33,7 +33,7 @@ func (c03) RequiredBuckets(tier string) []string {
 		}
 	}
 	out = append(out, "Slice|wrap", "Slice|negative", "Slice|forward", "Slice|refs", "Slice|of-a-slice", "Slice|source-feature", "Slice|host:genbank")
-	out = append(out, "cmd:delete", "cmd:delete -e", "cmd:extract", "cmd:extract -v", "cmd:split", "stream:records-independent")
+	out = append(out, "cmd:delete", "cmd:delete -e", "cmd:extract", "cmd:extract -v", "cmd:split", "stream:records-independent", "cache-on:after-sibling")
 	return out
 }
 func (c03) Findings() []fw.Finding {
